@@ -19,11 +19,11 @@ from core import F, rs, rl, pr
 PROP = "C02"
 
 
-def one(ctx, A, Pc, tol, kind, meta):
+def one(ctx, A, Pc, tol, kind, meta, force_obj=None):
     drv = ctx.driver()
     try:
         with core.quiet():
-            pobj, pform = P.poly_form([complex(z) for z in Pc], (list(Pc), tol))
+            pobj, pform = force_obj if force_obj is not None else P.poly_form([complex(z) for z in Pc], (list(Pc), tol))
             ctx.count("container:" + pform)
             if tol == 1e-6 and zlib.crc32(repr(list(Pc)).encode()) % 3 == 0:      # a third of the default-tolerance calls leave it to the library
                 ctx.count("tolerance:library-default")
@@ -167,6 +167,23 @@ def run(tier, seed):
             kind = "perturbed"
             Pc = Pc + (rng.normal(size=len(Pc)) + 1j * rng.normal(size=len(Pc))) * 10.0 ** float(rng.uniform(-9, -6)) * (np.abs(Pc) > 0)
         one(ctx, A, list(Pc), (0.0 if rng.random() < 0.7 else 0), kind + "/zero-tolerance", {"style": style, "source_phases": ph})
+    # byte-level twins: a complex128 vector with +0.0 real parts and the float64 vector holding the SAME BYTES denote different
+    # polynomials (i R(x) of degree n and x R(x^2) of degree 2n+1); they are requested back to back, in either order.  The
+    # purely imaginary achievable corners are +-i T_n; x T_n(x^2) is bounded by 1 and takes the values +-1 at the end points.
+    for n in range(1, 9 if tier == "quick" else 13):
+        for sgn in (1.0, -1.0):
+            cc = np.zeros(n + 1); cc[n] = sgn
+            c = np.zeros(n + 1, dtype=np.complex128)
+            c.imag = np.array(P.mono_from_cheb(cc), dtype=float)
+            twin = c.view(np.float64).copy()
+            assert twin.tobytes() == c.tobytes()
+            calls = [([complex(x) for x in twin], "byte-twin/real", (twin, "float64-ndarray")),
+                     (list(c), "byte-twin/complex", (c.copy(), "complex128-ndarray"))]
+            if (n + (sgn > 0)) % 2:
+                calls.reverse()
+            for tol_ in (1e-6,) if n > 4 else (1e-6, 1e-9):
+                for Pc_, kind_, fo in calls:
+                    one(ctx, A, Pc_, tol_, kind_, {"style": "byte-twin", "source_phases": None, "twin_of": "i*%+gT_%d" % (sgn, n)}, force_obj=fo)
     ctx.assumptions = ["which inputs the floating-point pipeline completes on is explored; every RETURNED result is judged by the proven validator"]
     return ctx.finish(
         rule="complex definite-parity P of degree 1..20: corners <0|U_x|0> of phase lists in 6 styles (generic, real, imaginary, "
